@@ -59,8 +59,11 @@ def gen_case(rng):
             if k < 0.4:
                 plain[n] = f"x{n.lower()} <{m}>"
                 wordsafe[n] = False
-            elif k < 0.7:
+            elif k < 0.55:
                 plain[n] = f"y{n.lower()} | <{m}>"
+                wordsafe[n] = False
+            elif k < 0.7:
+                plain[n] = rng.choice([f"y{n.lower()} || <{m}>", f"y{n.lower()} || u || <{m}>"])
                 wordsafe[n] = False
             else:
                 plain[n] = f"--{n.lower()}=<{m}>"
@@ -81,7 +84,8 @@ def gen_case(rng):
     for n in used:
         k = rng.random()
         if k < 0.5 or (n in plain and not wordsafe.get(n, False)):
-            parts.append(rng.choice([f"<{n}>", f"[<{n}>]", f"(a | <{n}>)", f"<{n}>..."]))
+            parts.append(rng.choice([f"<{n}>", f"[<{n}>]", f"(a | <{n}>)", f"<{n}>...",
+                                     f"(q || <{n}>)", f"(q || r{n.lower()} || <{n}>)", f"(<{n}> || q)", f"(q || s <{n}> || t)"]))
         else:
             parts.append(f"--{n.lower()}=<{n}>")
     rng.shuffle(parts)
